@@ -98,7 +98,9 @@ class Session:
             if s.get("was") == "create" or s.get("was") == "derive":
                 self.pool.append(_Dead())       # keeps later indices stable
             return None
-        if k in ("query", "derive") and not self.pool[s["idx"]].alive:
+        if k in ("query", "derive") and (s["idx"] >= len(self.pool) or not self.pool[s["idx"]].alive):
+            if k == "derive":
+                self.pool.append(_Dead())       # keeps later indices stable
             return None
         if k == "create":
             prov = {"spec": s["spec"], "chain": []}
